@@ -262,7 +262,7 @@ int main(int argc, char** argv)
             elem_chunk.push_back({e, c});
         }
     }
-    for (const int e : {1000, 5000})
+    for (const int e : {100, 129, 257, 1000, 1025, 5000})
     {
         if (!tsan)
         {
@@ -276,9 +276,11 @@ int main(int argc, char** argv)
     lat.axis("pool_size", sizes.size(), jarr_num(sizes));
     lat.axis("elements_x_chunk", elem_chunk.size(),
              jstr("elements 0.." + std::to_string(maxelem) + " x {index map, chunk 1..elements+1}" +
-                  (tsan ? "" : " + {1000,5000} x {index,1,7,64,999,E,E+1}")));
+                  (tsan ? "" : " + {100,129,257,1000,1025,5000} x {index,1,7,64,999,E,E+1}")));
     lat.axis("submitters", tsan ? 2 : 3, jstr(tsan ? "1,3" : "1,2,4"));
-    lat.axis("thrower", 5, jstr("none, element 0 (raise), last element (raise), element 0 (raise=false), last (raise=false)"));
+    lat.axis("thrower", 7,
+             jstr("none, element 0 (raise), last element (raise), element 0 (raise=false), last (raise=false), middle element "
+                  "(raise), middle (raise=false)"));
     lat.describe(r);
     for_each_case(lat, r, "free",
                   [&](const uint64_t index, const std::vector<uint64_t>& d)
@@ -287,11 +289,15 @@ int main(int argc, char** argv)
                       const auto elements = elem_chunk[d[1]][0];
                       const auto chunk    = elem_chunk[d[1]][1];
                       const int  subs     = tsan ? (d[2] == 0 ? 1 : 3) : (d[2] == 0 ? 1 : d[2] == 1 ? 2 : 4);
-                      const int  thrower  = d[3] == 0 ? -1 : (d[3] == 1 || d[3] == 3) ? 0 : elements - 1;
-                      const bool raise    = d[3] < 3;
-                      if (elements > 100 && (subs > 2 || d[3] == 1 || d[3] > 2))
+                      const int  thrower  = d[3] == 0 ? -1 : (d[3] == 1 || d[3] == 3) ? 0 : d[3] >= 5 ? elements / 2 : elements - 1;
+                      const bool raise    = d[3] < 3 || d[3] == 5;
+                      if (elements >= 100 && subs > 2)
                       {
                           return;
+                      }
+                      if (d[3] >= 5 && elements < 3)
+                      {
+                          return; // the middle element coincides with the first or the last one
                       }
                       g_current      = static_cast<int64_t>(index);
                       g_current_kind = 0;
